@@ -213,8 +213,8 @@ def check(ctx: Ctx) -> None:
     ahb_prods = G.token_productions(ga, lambda t: t)
     ref_ahb = {"a": {("mm+",), ("PREFIX_OPERATOR", "CONDITION_EXPRESSION"), ("PREFIX_OPERATOR",), ("MODAL_MARK",), ("mm+", "PREFIX_OPERATOR"), ("mm+", "MODAL_MARK")},
                "mm+": {("MODAL_MARK", "CONDITION_EXPRESSION"), ("mm+", "MODAL_MARK", "CONDITION_EXPRESSION")}}
-    mine_a = G.sentences(ahb_prods, ga.start, 7)
-    ref_a = G.sentences(ref_ahb, "a", 7)
+    mine_a = G.sentences(ahb_prods, ga.start, 11)
+    ref_a = G.sentences(ref_ahb, "a", 11)
     ctx.count(len(mine_a | ref_a))
     ctx.ob("C02.cfg", "ahb-language", mine_a == ref_a,
            f"token-level AHB language differs from the documented forms: only in code {sorted(mine_a - ref_a, key=len)[:3]}, only documented {sorted(ref_a - mine_a, key=len)[:3]}",
